@@ -442,6 +442,7 @@ static void atom_defs(Var v, std::vector<z3::expr>& out) {
     case V_UF:    // ranges of the inverse trigonometric functions (a slightly wider rational enclosure of pi is used)
       if (vi.uf == "acos") { out.push_back(z >= 0 && z <= e.ctx.real_val("3141592653589794/1000000000000000")); }
       else if (vi.uf == "asin") { out.push_back(z >= e.ctx.real_val("-1570796326794897/1000000000000000") && z <= e.ctx.real_val("1570796326794897/1000000000000000")); }
+      else if (vi.uf == "exp") { out.push_back(z > 0); }
       break;
     default: break;
   }
@@ -1246,6 +1247,52 @@ void magic_reset() { E().magic.clear(); E().magic_of.clear(); }
 Real uf(const std::string& name, std::initializer_list<Real> args) { std::vector<Poly> a; for (const Real& r : args) a.push_back(P(r)); return uf_sym(name, a); }
 bool symbolic_mode() { return true; }
 Policy& policy() { return E().pol; }
+
+// does the atom / polynomial mention the free symbol v (through any depth of atom arguments)?
+static bool p_mentions(const Poly& p, Var v, int depth = 0);
+static bool var_mentions(Var a, Var v, int depth) {
+  if (a == v) return true;
+  if (depth > 64) return true;
+  for (const Poly& q : E().vars[a].args) if (p_mentions(q, v, depth + 1)) return true;
+  return false;
+}
+static bool p_mentions(const Poly& p, Var v, int depth) {
+  for (auto& kv : p) for (Var a : kv.first) if (var_mentions(a, v, depth)) return true;
+  return false;
+}
+static Var single_symbol(Real var, const char* who) {
+  const Poly& pv = P(var);
+  if (pv.size() != 1 || pv.begin()->first.size() != 1 || pv.begin()->second != 1 || E().vars[pv.begin()->first[0]].kind != V_FREE)
+    throw Abort{Abort::Unsupported, std::string(who) + ": the variable must be a free input symbol"};
+  return pv.begin()->first[0];
+}
+// d term / d var, for a term that is a polynomial in the free symbol var (atoms must not depend on it)
+Real derivative(Real term, Real var) {
+  Var v = single_symbol(var, "derivative");
+  Poly p = P(term), r;
+  for (auto& kv : p) {
+    int k = 0;
+    for (Var a : kv.first) { if (a == v) k++; else if (var_mentions(a, v, 0)) throw Abort{Abort::Unsupported, "derivative: an atom depends on the variable"}; }
+    if (!k) continue;
+    Mono m; bool dropped = false;
+    for (Var a : kv.first) { if (a == v && !dropped) { dropped = true; continue; } m.push_back(a); }
+    p_addto(r, m, kv.second * k);
+  }
+  return mk(std::move(r));
+}
+// term with the free symbol var replaced by value (atoms must not depend on var)
+Real substitute(Real term, Real var, Real value) {
+  Var v = single_symbol(var, "substitute");
+  Poly p = P(term), val = P(value), r;
+  for (auto& kv : p) {
+    int k = 0; Mono m;
+    for (Var a : kv.first) { if (a == v) k++; else { if (var_mentions(a, v, 0)) throw Abort{Abort::Unsupported, "substitute: an atom depends on the variable"}; m.push_back(a); } }
+    Poly t; t[m] = kv.second;
+    for (int i = 0; i < k; i++) t = p_mul(t, val);
+    r = p_add(r, t);
+  }
+  return mk(std::move(r));
+}
 
 Real input(const std::string& name) {
   int v = find_var("F:" + name);
